@@ -24,6 +24,8 @@ def main():
     except ValueError:
         seed = 0
     os.chdir(core.VERIF)
+    import logging
+    logging.disable(logging.CRITICAL)
     core.use_repo()
     mod = importlib.import_module("vf.checks." + a.pid.lower())
     if a.replay:
